@@ -192,6 +192,155 @@ def receive_body(stream, c1, c2, c3):
     rt.require(got == ref_msgs[0], 'receive:message', 'short reads change the received message')
 
 
+# ------------------------------------------------------------- handshake -----
+class _Verdict:
+    def __init__(self, valid):
+        self.valid = valid
+
+
+class _Plain:
+    def __init__(self, data):
+        self.data = data
+
+
+class FakePGP:
+    """security._PGP: verdicts and the echo are decided by the solver.
+    verify(x).valid only for non-empty x (a clear-signed message is never empty)"""
+
+    def __init__(self, verdicts, echo_ok):
+        self.verdicts = list(verdicts)
+        self.echo_ok = echo_ok
+        self.wrapper = None
+        self.calls = 0
+
+    def verify(self, x):
+        v = self.verdicts[self.calls] if self.calls < len(self.verdicts) else False
+        self.calls += 1
+        return _Verdict(bool(v) and len(x) > 0)
+
+    def decrypt(self, x):
+        if self.calls >= 2 and self.echo_ok:
+            return _Plain(self.wrapper._TwistedWrapper__msg.encode())
+        return _Plain(b'id or stale echo')
+
+
+def _hs_hand(v1, v2, echo):
+    security.use_tls = lambda: False
+    try:
+        h = farm.Hand(Addr('w', 1))
+    finally:
+        security.use_tls = lambda: True
+    h.transport = FakeTransport()
+    got = []
+    h._process = got.append
+    pgp = FakePGP([v1, v2], echo)
+    pgp.wrapper = h._Hand__handshake
+    security._PGP = pgp
+    return h, got
+
+
+def _hs_state(h):
+    w = h._Hand__handshake
+    return (w._phase().__name__, w._len(), w._TwistedWrapper__buf, h._Hand__buf, h._Hand__len)
+
+
+def _be32(b):
+    return ((b[0] * 256 + b[1]) * 256 + b[2]) * 256 + b[3]
+
+
+def hs_reference(s, v1, v2, echo):
+    """sequential specification of the legacy handshake + framing on the whole
+    stream: returns (delivered payloads, closed)"""
+    if len(s) < 4:
+        return [], False
+    if _be32(s[0:4]) != 4:
+        return [], True
+    if len(s) < 8:
+        return [], False
+    n1 = _be32(s[4:8])
+    if len(s) - 8 < n1:
+        return [], False
+    if not (v1 and n1 > 0):
+        return [], True
+    p = 8 + n1
+    if len(s) - p < 8:
+        return [], False
+    if _be32(s[p : p + 4]) != 4:
+        return [], True
+    n2 = _be32(s[p + 4 : p + 8])
+    p += 8
+    if len(s) - p < n2:
+        return [], False
+    if not (v2 and n2 > 0 and echo):
+        return [], True
+    msgs, _buf, _ln = ref_parse(s[p + n2 :])
+    return msgs, False
+
+
+def _pick(sel, n):
+    for i in range(n):
+        if sel == i:
+            return i
+    return None
+
+
+WORDS = (4, 5, 0)
+APPS = ([], [b'm'], [b'', b'xy'], [b'abc', b'd'])
+
+
+def _frame(payload):
+    return len(payload).to_bytes(4, 'big') + payload
+
+
+def handshake_body(w1, n1, w2, n2, verd, app, c1, c2):
+    """stream assembled from fields (selectors): first word, id length, second first
+    word, reply length, verdict bits (v1, v2, echo), trailing application frames;
+    delivered whole and cut at c1 <= c2 (both symbolic positions)"""
+    f = [_pick(w1, 3), _pick(n1, 3), _pick(w2, 3), _pick(n2, 3), _pick(verd, 8), _pick(app, len(APPS))]
+    if None in f:
+        return
+    with rt.island():
+        v1, v2, echo = bool(f[4] & 1), bool(f[4] & 2), bool(f[4] & 4)
+        s = WORDS[f[0]].to_bytes(4, 'big') + f[1].to_bytes(4, 'big') + b'i' * f[1]
+        s += WORDS[f[2]].to_bytes(4, 'big') + f[3].to_bytes(4, 'big') + b'r' * f[3]
+        for pl in APPS[f[5]]:
+            s += _frame(pl)
+        n = len(s)
+    k1 = _pick(c1, n + 1)
+    if k1 is None:
+        return
+    k2 = None
+    for i in range(k1, n + 1):
+        if c2 == i:
+            k2 = i
+            break
+    if k2 is None:
+        return
+    with rt.island():
+        rt.note(f'stream={s.hex()} v1={v1} v2={v2} echo={echo} cuts={k1},{k2}')
+        h1, g1 = _hs_hand(v1, v2, echo)
+        h1.dataReceived(s)
+        want, closed = hs_reference(s, v1, v2, echo)
+        ok_hs = WORDS[f[0]] == 4 and f[1] > 0 and v1 and WORDS[f[2]] == 4 and f[3] > 0 and v2 and echo
+        rt.require(closed == (not ok_hs), 'handshake:reference-selfcheck', 'harness reference disagrees with the field-level specification')
+        if ok_hs and want:
+            rt.nontrivial()
+        if not ok_hs:
+            rt.nontrivial()
+        rt.require((h1.transport.lost > 0) == closed, 'handshake:close', f'closed={h1.transport.lost > 0}, specification says {closed}')
+        rt.require(len(g1) == len(want), 'handshake:gating', f'{len(g1)} application messages delivered, specification says {len(want)}')
+        rt.require(g1 == want, 'handshake:messages', f'delivered {g1}, frames after the handshake were {want}')
+        st1 = _hs_state(h1)
+        h2, g2 = _hs_hand(v1, v2, echo)
+        for chunk in (s[:k1], s[k1:k2], s[k2:]):
+            if h2.transport.lost == 0:  # a closed transport delivers nothing more
+                h2.dataReceived(chunk)
+        rt.require((h2.transport.lost > 0) == closed, 'handshake:split-close', 'a split stream changes the close decision')
+        rt.require(g2 == g1, 'handshake:split-messages', f'split delivery gives {g2}, whole delivery {g1}')
+        if not closed:
+            rt.require(_hs_state(h2) == st1, 'handshake:split-residual', f'split leaves state {_hs_state(h2)}, whole delivery {st1}')
+
+
 INFO = {
     'explanation': 'Two-chunk framing lemma on the real dataReceived of farm.Hand, shelve comms.Worker and LogSink, and '
     'message.receive under solver-chosen short reads: every byte of the stream is a z3 variable (header bytes stay '
@@ -202,21 +351,23 @@ INFO = {
     'rule': 'one path = one feasible control path of the reassembly loops for a given (|a|,|b|); non-trivial = at least one '
     'complete message was delivered on it',
     'functions': [
+        'security.TwistedWrapper.process/_p1.._p6 (under farm.Hand)',
         'farm.Hand.dataReceived',
         'db.shelve.comms.Worker.dataReceived',
         'pl.logger.LogSink.dataReceived',
         'pl.message.receive',
     ],
     'bounds': {
-        'quick': 'all byte values; |a|+|b| <= 9 (every split position); receive: stream <= 8 bytes, 3 short reads',
-        'thorough': 'all byte values; |a|+|b| <= 12 (every split position, two complete frames fit); receive: stream <= 10 bytes',
+        'quick': 'all byte values; |a|+|b| <= 9 (every split position); receive: stream <= 8 bytes, 3 short reads; handshake: streams assembled from fields (first words in {4,5,0}, lengths 0..2, both signature verdicts and the echo, 0-2 trailing application frames), every split into two chunks; every split into three chunks for the valid streams',
+        'thorough': 'all byte values; |a|+|b| <= 12 (every split position, two complete frames fit); receive: stream <= 10 bytes; handshake: same fields, every split into two and three chunks',
     },
     'assumptions': [
         'struct.unpack(">I"/">L"/">II") replaced by a pure-Python big-endian decode (differential-tested against struct on every run)',
         'pickle.loads on a frame is the identity / a record wrapper: deserialisation is outside C14',
         'comms: message kind (connection kept or closed) derived from the first payload byte',
         'Hand._process, Worker.do, the log handler are recorders; logging.makeLogRecord builds a plain record object',
-        'TLS mode for the framing lemma (no handshake wrapper); the handshake is checked by the H obligations',
+        'TLS mode for the framing lemma (no handshake wrapper); the handshake obligations run farm.Hand in legacy mode with the real TwistedWrapper',
+        'security._PGP replaced by FakePGP: verify(x).valid = solver-chosen verdict and x non-empty; decrypt of the reply = the challenge iff the solver-chosen echo bit; after loseConnection() the transport delivers nothing more (Twisted contract)',
     ],
     'outside': ['streams longer than the bound', 'pickle internals', 'TLS record layer'],
 }
@@ -251,6 +402,23 @@ def obligations(tier):
                 twin=True,
             )
         )
+    hs_sig = 'w2: int, n2: int, app: int, c1: int, c2: int'
+    for w1 in range(3):
+        for n1 in range(3):
+            for verd in range(8):
+                for three in ((False,) if tier == 'quick' else (False, True)):
+                    pre = [f'0 <= w2 < 3 and 0 <= n2 < 3 and 0 <= app < {len(APPS)}', '0 <= c1 <= 40 and c1 <= c2 <= 40']
+                    if not three:
+                        pre.append('c2 == c1')  # two chunks
+                    out.append(ob.make(f'handshake-w{w1}n{n1}v{verd}-{"3chunks" if three else "2chunks"}', 'handshake', 'vp.harness.c14:handshake_body', hs_sig, pre,
+                                       f"{{'w1': {w1}, 'n1': {n1}, 'w2': w2, 'n2': n2, 'verd': {verd}, 'app': app, 'c1': c1, 'c2': c2}}", timeout=900 if tier == 'quick' else 3000))
+    # every pair of cut positions on the streams whose handshake succeeds
+    out.append(ob.make('handshake-valid-3chunks', 'handshake', 'vp.harness.c14:handshake_body', 'n1: int, n2: int, app: int, c1: int, c2: int',
+                       [f'1 <= n1 < 3 and 1 <= n2 < 3 and 0 <= app < {len(APPS)}', '0 <= c1 <= 40 and c1 <= c2 <= 40'],
+                       "{'w1': 0, 'n1': n1, 'w2': 0, 'n2': n2, 'verd': 7, 'app': app, 'c1': c1, 'c2': c2}", timeout=900))
+    out.append(ob.make('handshake', 'handshake', 'vp.harness.c14:handshake_body', 'n1: int, verd: int, ' + hs_sig,
+                       [f'0 <= n1 < 3 and 0 <= w2 < 3 and 0 <= n2 < 3 and 0 <= verd < 8 and 0 <= app < {len(APPS)}', '0 <= c1 <= 40 and c1 <= c2 <= 40'],
+                       "{'w1': 0, 'n1': n1, 'w2': w2, 'n2': n2, 'verd': verd, 'app': app, 'c1': c1, 'c2': c2}", timeout=600, twin=True))
     n = 8 if tier == 'quick' else 10
     out.append(
         ob.make(
